@@ -223,8 +223,22 @@ impl Extra for Al32 {}
 impl Extra for Zst {}
 impl Extra for NanField {}
 
-pub const NTYPES: u32 = 12;
-pub const TYPE_NAMES: [&str; NTYPES as usize] = ["()", "u8", "f64(NaN for key 0)", "align64", "align32", "[u64;40]", "(u8,u64)", "String", "Box<i32>", "ZST struct", "struct with NaN field", "Spy (hand-written, logged eq/ne/lt/le/gt/ge/cmp/hash)"];
+#[derive(Clone, Debug, PartialEq, PartialOrd)]
+#[repr(align(16))]
+pub struct Al16(pub u64);
+#[derive(Clone, Copy, Debug, PartialEq, PartialOrd)]
+#[repr(packed)]
+pub struct Packed(pub u8, pub u32);
+#[derive(Clone, Debug, PartialEq, PartialOrd)]
+#[repr(align(4096))]
+pub struct Al4096(pub u8);
+impl Extra for Al16 {}
+impl Extra for Packed {}
+impl Extra for Al4096 {}
+ord_extra!(u16, [u8; 5000]);
+
+pub const NTYPES: u32 = 17;
+pub const TYPE_NAMES: [&str; NTYPES as usize] = ["()", "u8", "f64(NaN for key 0)", "align64", "align32", "[u64;40]", "(u8,u64)", "String", "Box<i32>", "ZST struct", "struct with NaN field", "Spy (hand-written, logged eq/ne/lt/le/gt/ge/cmp/hash)", "u16", "align16 size 16 (u64 inside)", "packed (u8,u32)", "[u8;5000]", "align4096"];
 
 macro_rules! typed_interp {
     ($m:ident, $x:ident, $d:ident, $($p:tt)*) => {
@@ -508,6 +522,11 @@ pub fn run_both(ty: u32, prog: &[T], on_step: &mut dyn FnMut(usize)) -> (bool, u
         8 => both(prog, &|k| Box::new(k), on_step),
         9 => both(prog, &|_| Zst, on_step),
         11 => both(prog, &|k| Spy(k), on_step),
+        12 => both(prog, &|k| k as u16, on_step),
+        13 => both(prog, &|k| Al16(k as u64), on_step),
+        14 => both(prog, &|k| Packed(k as u8, 7 + k as u32), on_step),
+        15 => both(prog, &|k| [k as u8; 5000], on_step),
+        16 => both(prog, &|k| Al4096(k as u8), on_step),
         _ => both(prog, &|k| NanField { tag: k as u8, x: if k == 0 { f32::NAN } else { 1.0 } }, on_step),
     };
     let _ = har(|| ());
